@@ -13,9 +13,14 @@ def run(ctx):
                         "set_environment only on an unpopulated model"]
     ctx.model_check(_world.MC, "World_C03.cfg")
     ctx.model_check(_world.MC, "World_C03_dev.cfg")
+    ctx.model_check(_world.MC, "World_C03_raw.cfg", require=("OfferRegisterRaw", "OfferDeregisterRaw"))
     for f in ("F1", "F3", "F6"):
         ctx.negative_control(_world.MC, f"World_C03_neg_{f}.cfg", "MirrorAlways")
     _world.spec_to_code(ctx, "World_MBT_c03.cfg", sample=2500 if q else None)
+    # the repository's own tests under the tracer: every recorded join / leave / attach / detach / register / deregister is
+    # validated as a World step from its recorded pre-state (Population_Suite.tla)
+    from .. import suite
+    suite.run(ctx, ["pop"])
     from ..drivers import world as Wd
     progs = Wd.carrier_programs(4) + Wd.carrier_programs(3, ("grid2d", [3, 2, 0], False)) + \
         Wd.carrier_programs(5, limit=40 if q else None, rng=ctx.rng) + \
